@@ -193,12 +193,26 @@ def self_pair_test(repo, chk, oid):
     Yp, Xp, rp, flag = fn.params[:4]
     sets = [n for n in own_nodes(fn.node) if isinstance(n, (ast.Assign, ast.AugAssign)) and any(isinstance(t, ast.Name) and t.id == flag for t in (n.targets if isinstance(n, ast.Assign) else [n.target]))]
     par = parents(fn.node)
+    E = lambda s: expected_term(m, s, {'X': ('role', 'X'), 'Y': ('role', 'Y')})
     if not sets:
+        # alternative shape: the flag handed to compute_entropies is `flag and not <identity predicate>`
+        ce = [c for c in calls(fn) if m.dotted(c.func) == f'{MI}.compute_entropies']
+        arg5 = ce[0].args[5] if ce and len(ce[0].args) > 5 else None
+        t = term_of(fn, arg5, {Xp: ('role', 'X'), Yp: ('role', 'Y')}, inline=True) if arg5 is not None else None
+        if t is not None and t[0] == 'and' and ('name', flag) in t[1] and len(t[1]) == 2:
+            other = [x for x in t[1] if x != ('name', flag)][0]
+            from ..terms import Canon, Scope
+            neg = Canon(m, Scope(None))._not(other)
+            exact_forms = _exact_forms(E)
+            if neg in exact_forms:
+                chk.ok(oid + 'a', 'identity-test', fn.site(ce[0]), ast.unparse(arg5), 'the correction is on iff requested and the vectors are not identical (exact element-wise identity test)')
+                return
+            chk.unsure(oid + 'a', 'identity-test', fn.site(ce[0]), ast.unparse(arg5), 'cannot classify the predicate combined with the correction flag')
+            return
         chk.bad(oid + 'a', 'identity-test', fn.site(), f'if <X identical to Y>: {flag} = False', 'a feature scored against itself no longer switches the correction off (its score would not be its entropy)')
         return
-    E = lambda s: expected_term(m, s, {'X': ('role', 'X'), 'Y': ('role', 'Y')})
-    exact = []
-    for a, b in (('X', 'Y'), ('Y', 'X')):
+    exact = _exact_forms(E)
+    for a, b in ():
         d = f'({a} - {b})'
         exact += [E(f'numpy.array_equal({a}, {b})'), E(f'numpy.array_equiv({a}, {b})'), E(f'numpy.all({a} == {b})'), E(f'({a} == {b}).all()'), E(f'not numpy.any({a} != {b})'), E(f'not ({a} != {b}).any()'),
                   E(f'numpy.count_nonzero({a} != {b}) == 0'), E(f'numpy.count_nonzero({d}) == 0'), E(f'numpy.sum({a} != {b}) == 0'), E(f'numpy.sum(numpy.abs({d})) == 0'), E(f'numpy.max(numpy.abs({d})) == 0'),
@@ -376,3 +390,13 @@ def sampling_guard(repo, chk, oid):
                    'the sampling must be guarded by exactly `approximation_factor < 1.0`: otherwise rows are dropped (quota int(n/#values) per stratum) even when no subsampling is requested')
     if not samp:
         chk.ok(oid, 'R14', fn.site(), 'no sampling call', 'no subsampling in the estimator')
+
+
+def _exact_forms(E):
+    exact = []
+    for a, b in (('X', 'Y'), ('Y', 'X')):
+        d = f'({a} - {b})'
+        exact += [E(f'numpy.array_equal({a}, {b})'), E(f'numpy.array_equiv({a}, {b})'), E(f'numpy.all({a} == {b})'), E(f'({a} == {b}).all()'), E(f'not numpy.any({a} != {b})'), E(f'not ({a} != {b}).any()'),
+                  E(f'numpy.count_nonzero({a} != {b}) == 0'), E(f'numpy.count_nonzero({d}) == 0'), E(f'numpy.sum({a} != {b}) == 0'), E(f'numpy.sum(numpy.abs({d})) == 0'), E(f'numpy.max(numpy.abs({d})) == 0'),
+                  E(f'numpy.sum({d} ** 2) == 0'), E(f'numpy.sum({d} * {d}) == 0'), E(f'not numpy.any({d})'), E(f'numpy.sum({a} == {b}) == len({a})'), E(f'numpy.count_nonzero({a} == {b}) == len({a})')]
+    return exact
